@@ -36,7 +36,17 @@ RULE = ('exhaustive small scope: (categorical, leaky) every cell sequence of len
         'the last bytes, long fraction, exponent at the very end ...), dtype and mode rotated (thorough: all modes), '
         'alone and next to short cells in the same chunk; keys, bool / date / datetime cells and fixed-string lengths at '
         'the widths around 32..1024; integer numerals on both sides of CPython\'s 4300-digit limit. The extracted model '
-        'is quadratic in the cell length: 4097 bytes is the affordable maximum.')
+        'is quadratic in the cell length: 4097 bytes is the affordable maximum. '
+        '(VC06) decimal fraction text -> integer microseconds: EVERY 1-, 2- and 3-digit fraction in the "... UTC" layouts at 8 '
+        'instants (columns of 1110 rows); the 6-digit "+00:00" / "-00:00" layout on the fractions f with '
+        'int(float("0."+f) * 10**6) != f (11549 of 10^6: all of them in the thorough tier, the 60 smallest, 60 largest and '
+        '500 sampled in quick), on all j*10^m-1, j*10^m, j*10^m+1 neighbours, and on a seeded sample of 20 000 (thorough '
+        '200 000) fractions in columns of 4000 rows; 4-, 5-, 6-digit fractions before " UTC" (28..30 bytes; thorough: all '
+        '10^4 four-digit ones and 40 000 each of the others); mixed-layout columns; refused fraction lengths; int() forms '
+        'inside the fraction slice; 600-row CSV imports; all at instants with |t| < 2^32 s, where float64 seconds separate '
+        'neighbouring microseconds; 3x the random budget when a library source differs from the recorded tree. Also 200-row '
+        'float columns of random decimal numerals with 1..17 fraction digits and int64 columns of 15..18-digit numerals '
+        '(beyond 2^53). The extracted model costs ~0.15 ms per row in chunks of 250 rows.')
 EXHAUSTIVE = {'quick': True, 'thorough': True}
 TRUSTED = ['numpy >= 2 casts an S-string to an integer/float dtype by calling Python int()/float() on it and storing the '
            'result with a range check (OverflowError) - modelled so, exercised by this correspondence',
@@ -328,6 +338,9 @@ _RX = [
 ]
 
 
+_RXF = re.compile(rb'^\d{4}-\d\d-\d\d \d\d:\d\d:\d\d\.(\d+)(?: UTC|[+-]\d\d:\d\d)$')
+
+
 def _denoted_us(cell):
     """Independent reading of a timestamp text in one of the accepted layouts (datetime + timedelta arithmetic
     of CPython): integer microseconds since the epoch of the instant the text denotes, or None."""
@@ -494,11 +507,19 @@ def features(case, model):
         if any(len(c) < case['n'] for c in cells): f.append('shorter-than-N')
     if k == 'datetime':
         if _offset_cells(case): f.append('nonzero-utc-offset')
+        if rows >= 1000: f.append('rows>=1000')
+        hard6 = set(_hard_fractions(6)) if rows >= 100 else ()
+        seen_l = set()
         for ch in chunks:
             for c in ch:
                 t = b(c).strip(WS)
                 for rx, kind in _RX:
-                    if rx.match(t): f.append('layout:%s:%d' % (kind, len(t)))
+                    if rx.match(t): seen_l.add('layout:%s:%d' % (kind, len(t)))
+                m = _RXF.match(t)
+                if m:
+                    seen_l.add('fraction-digits:%d%s' % (len(m.group(1)), '-before-UTC' if t.endswith(b'UTC') else ''))
+                    if len(m.group(1)) == 6 and int(m.group(1)) in hard6: seen_l.add('fraction-binary64-hard')
+        f += sorted(seen_l)
     if k == 'date':
         for ch in chunks:
             for c in ch:
@@ -790,6 +811,158 @@ def _gen_long(tier, rng, budget):
                    'chunks': _rand_split(rng, cells, 4), 'lay': [rng.randint(0, 3), rng.randint(0, 2), rng.randint(0, 2)]}
 
 
+# ------------------------------------------------------------------- strengthening VC06 (seeded C06-r4-1)
+# Decimal text -> number with a fixed scale.  The importers read the fraction digits of a datetime with int() (exact);
+# a reading through binary floating point - int(float('0.' + digits) * 10**k), float(seconds text), base + fraction as
+# floats - is wrong only for the digit strings whose product lands a hair below the integer (about 1% of the 6-digit
+# fractions, none of the 1..3-digit ones for the scale 10**6, 3 of the 2-digit ones for the scale 10**2), so a pool
+# of hand-picked fractions never meets it.  Region covered here: EVERY 1-, 2- and 3-digit fraction in every layout that
+# carries one, the 6-digit layout on the binary64-hard fractions (all of them in the thorough tier) and on a large
+# seeded sample, 4/5/6-digit fractions before ' UTC' (lengths 28..30: the code drops the fraction - modelled so),
+# all in long columns (thousands of rows per import call, several chunks), at instants where float64 seconds resolve
+# one microsecond (|t| < 2^32 s, years 1834..2106; outside, two neighbouring microseconds share a float64).
+FRAC_INSTANTS = [(1970, 1, 1, 0, 0, 0), (1969, 12, 31, 23, 59, 59), (2020, 6, 15, 19, 45, 39), (2000, 2, 29, 12, 0, 0),
+                 (2100, 2, 28, 23, 59, 59), (1902, 1, 1, 0, 0, 1), (2038, 1, 19, 3, 14, 7), (1999, 12, 31, 23, 59, 59)]
+FRAC_CHUNK = 250            # rows per chunk: the extracted model reads a chunk through list get/slice (quadratic)
+_hard_cache = {}
+
+
+def _hard_fractions(k):
+    """the k-digit fractions f for which SOME plausible binary64 route from the digit string to the integer number of
+    10^-k units / microseconds truncates to the wrong integer (float('0.'+digits) == f / 10**k, both correctly rounded)"""
+    if k in _hard_cache:
+        return _hard_cache[k]
+    s = 10 ** (6 - k)
+    try:
+        import numpy as np
+        f = np.arange(10 ** k, dtype=np.int64)
+        x = f / 10.0 ** k
+        bad = (np.trunc(x * 10.0 ** k) != f) | (np.trunc(x * 1e6) != f * s)
+        out = [int(v) for v in f[bad]]
+    except ImportError:
+        out = [f for f in range(10 ** k)
+               if int(float('0.%0*d' % (k, f)) * 10 ** k) != f or int(float('0.%0*d' % (k, f)) * 1e6) != f * s]
+    _hard_cache[k] = out
+    return out
+
+
+def _frac_cell(inst, k, f, sfx):
+    return '%04d-%02d-%02d %02d:%02d:%02d' % tuple(inst) + '.%0*d' % (k, f) + sfx
+
+
+def _rand_instant(rng):
+    y = rng.choice([1902, 1950, 1969, 1970, 1971, 1999, 2000, 2001, 2020, 2024, 2038, 2099, 2100])
+    return (y, rng.randint(1, 12), rng.randint(1, 28), rng.randint(0, 23), rng.randint(0, 59), rng.randint(0, 59))
+
+
+def _frac_column(rng, items, inst=None, pad=True):
+    """items: (k, f, suffix); one long column, blank cells and blank-padded cells sprinkled in, chunks of <= FRAC_CHUNK
+    rows with a random first cut so that chunk boundaries fall differently in every case"""
+    cells = []
+    for j, (k, f, sfx) in enumerate(items):
+        c = _frac_cell(inst or _rand_instant(rng), k, f, sfx)
+        if pad and j % 53 == 7:
+            c = ' ' + c + '\t '
+        cells.append(c)
+        if pad and j % 97 == 11:
+            cells.append('')
+    first = rng.randint(1, FRAC_CHUNK)
+    chunks = [cells[:first]] + [cells[i:i + FRAC_CHUNK] for i in range(first, len(cells), FRAC_CHUNK)]
+    return {'k': 'datetime', 'chunks': chunks, 'lay': [rng.randint(0, 3), rng.randint(0, 2), rng.randint(0, 2)]}
+
+
+def _gen_fractions(tier, rng, budget):
+    big = tier == 'thorough'
+    more = 3 if budget else 1                # some library source differs from the recorded tree: search harder
+    Z0, ZM = '+00:00', '-00:00'
+    # (a) every 1-, 2-, 3-digit fraction, each instant: one column per instant (1110 rows)
+    for n, inst in enumerate(FRAC_INSTANTS):
+        items = [(k, f, ' UTC') for k in (1, 2, 3) for f in range(10 ** k)]
+        if n % 2:
+            rng.shuffle(items)
+        yield _frac_column(rng, items, inst)
+    # (b) six digits, binary64-hard fractions: all (thorough) / the extremes and a sample (quick), instants rotated
+    hard = _hard_fractions(6)
+    if not big:
+        pick = sorted(set(hard[:60] + hard[-60:] + rng.sample(hard, min(len(hard), 500 * more))))
+    else:
+        pick = list(hard)
+    per = 2000
+    for n, a in enumerate(range(0, len(pick), per)):
+        part = pick[a:a + per]
+        yield _frac_column(rng, [(6, f, ZM if j % 17 == 3 else Z0) for j, f in enumerate(part)],
+                           FRAC_INSTANTS[n % len(FRAC_INSTANTS)] if n % 3 else None)
+    # systematic neighbours: j * 10^m - 1, j * 10^m, j * 10^m + 1 (runs of nines / zeros in the text)
+    sysf = set()
+    for m in range(0, 6):
+        for j in range(0, 10 ** 6 // 10 ** m + 1, max(1, 10 ** (5 - m) // 10)):
+            for dlt in (-1, 0, 1):
+                v = j * 10 ** m + dlt
+                if 0 <= v < 10 ** 6:
+                    sysf.add(v)
+    sysf = sorted(sysf)
+    for a in range(0, len(sysf), per):
+        yield _frac_column(rng, [(6, f, Z0) for f in sysf[a:a + per]], FRAC_INSTANTS[(a // per) % len(FRAC_INSTANTS)])
+    # (c) six digits, seeded sample: long columns; fixed instants (t = 0 resolves best) and random instants alternate
+    ncols = (50 if big else 5) * more
+    for n in range(ncols):
+        items = [(6, rng.randrange(10 ** 6), Z0) for _ in range(4000)]
+        yield _frac_column(rng, items, FRAC_INSTANTS[(n // 2) % len(FRAC_INSTANTS)] if n % 2 == 0 else None)
+    # (d) the digit counts the parser has no branch for, before ' UTC' (28, 29, 30 bytes: read as '... UTC' without
+    #     the fraction - what the code does; the specification has no opinion on them) - hard ones first, then a sample
+    for k in (4, 5, 6):
+        hk = _hard_fractions(k)
+        nsamp = (10 ** k if k == 4 else 40000) if big else 1500
+        fs = (list(range(10 ** k)) if nsamp >= 10 ** k else
+              sorted(set(rng.sample(hk, min(len(hk), nsamp // 3)) + [rng.randrange(10 ** k) for _ in range(nsamp)])))
+        for a in range(0, len(fs), 4000):
+            yield _frac_column(rng, [(k, f, ' UTC') for f in fs[a:a + 4000]], None)
+    # mixed columns: every layout that carries a fraction, row by row
+    for n in range((40 if big else 6) * more):
+        items = []
+        for _ in range(rng.randint(300, 1200)):
+            k = rng.choice([1, 2, 3, 6, 6, 6, 4, 5])
+            f = rng.choice(_hard_fractions(k)) if (rng.random() < 0.2 and _hard_fractions(k)) else rng.randrange(10 ** k)
+            items.append((k, f, ' UTC' if k != 6 else rng.choice([Z0, Z0, ZM])))
+        yield _frac_column(rng, items, None)
+    # fraction layouts the parser refuses (ValueError for the whole chunk): one cell each, after good rows
+    inst = FRAC_INSTANTS[2]
+    for k, sfx in [(1, Z0), (2, Z0), (3, Z0), (4, Z0), (5, Z0), (7, Z0), (7, ' UTC'), (6, '+00:0'), (6, 'Z'), (6, '')]:
+        f = rng.randrange(10 ** k)
+        yield {'k': 'datetime', 'chunks': [[_frac_cell(inst, 6, 249, Z0)], [_frac_cell(inst, k, f, sfx)]], 'lay': [0, 0, 0]}
+    # the fraction slice goes through int(): blanks, sign, underscore inside the digits (what int() accepts is stored)
+    for t in ['.1_2 UTC', '.+12 UTC', '. 12 UTC', '.12  UTC', '.-12 UTC', '.1e2 UTC', '.0x1 UTC', '.+1 UTC', '.-1 UTC', '.  UTC',
+              '.12_456+00:00', '.+12345+00:00', '. 12345+00:00', '.12345 +00:00', '.-00001+00:00', '.1e5   +00:00', '.1.2345+00:00',
+              '.      +00:00', '.000249 00:00', '.000249+0000Z']:
+        yield {'k': 'datetime', 'chunks': [['2020-06-15 19:45:39' + t]], 'lay': [1, 1, 1]}
+    # (e) end to end through the CSV reader
+    for n in range(4 if big else 2):
+        cells = []
+        for _ in range(600):
+            k = rng.choice([1, 2, 3, 6, 6, 6])
+            f = rng.choice(hard) if (k == 6 and rng.random() < 0.3) else rng.randrange(10 ** k)
+            cells.append(_frac_cell(_rand_instant(rng), k, f, ' UTC' if k != 6 else Z0) if rng.random() < 0.95 else '')
+        yield {'k': 'datetime', 'chunks': [cells], 'via': 'csv', 'crs': (18, 64, 700, 37)[n], 'lay': [0, 0, 0]}
+    # (f) the same class in numeric columns: decimal numerals whose value a hand-rolled parser (integer part +
+    #     digits / 10**k, or float -> int scaling) gets wrong in the last bit / last unit
+    for n in range((60 if big else 12) * more):
+        cells = []
+        for _ in range(200):
+            k = rng.randint(1, 17)
+            ip = rng.choice(['', '0', '1', '39', str(rng.randrange(10 ** rng.randint(1, 10)))])
+            cells.append(rng.choice(['', '-']) + ip + '.' + '%0*d' % (k, rng.randrange(10 ** k)) + rng.choice(['', '', 'e3', 'e-2', 'E+5']))
+        yield {'k': 'float', 'dtype': ('float64', 'float32')[n % 4 == 3], 'mode': n % 3, 'inv': 0,
+               'chunks': _rand_split(rng, cells, 4), 'lay': LAYS[n % 3]}
+    for n in range((30 if big else 6) * more):
+        cells = []
+        for _ in range(200):
+            d = rng.randint(15, 18)
+            v = rng.randrange(10 ** (d - 1), 10 ** d)
+            v = min(v, 2 ** 62 - 1) * rng.choice([1, -1])
+            cells.append(str(v) if rng.random() < 0.8 else str(2 ** rng.randint(53, 61) + rng.choice([-1, 1, 3])))
+        yield {'k': 'int', 'dtype': 'int64', 'mode': n % 3, 'inv': 0, 'chunks': _rand_split(rng, cells, 4), 'lay': LAYS[n % 3]}
+
+
 def gen_sc06(tier, rng):
     budget = 0
     try:
@@ -800,6 +973,7 @@ def gen_sc06(tier, rng):
         pass
     yield from _gen_unicode_tables(tier, rng, budget)
     yield from _gen_long(tier, rng, budget)
+    yield from _gen_fractions(tier, rng, budget)
 
 
 def _gen_base(tier, rng):
@@ -1036,6 +1210,18 @@ def shrink(case):
         return
     chunks = case['chunks']
     flat = [c for ch in chunks for c in ch]
+    if len(flat) > 24:
+        # long column: bisect (halves, quarters, ... as chunks of <= FRAC_CHUNK rows), then the caller iterates
+        parts = 2
+        while parts <= 64 and parts <= len(flat):
+            for i in range(parts):
+                sub = flat[i * len(flat) // parts:(i + 1) * len(flat) // parts]
+                d = dict(case); d['chunks'] = [sub[j:j + FRAC_CHUNK] for j in range(0, len(sub), FRAC_CHUNK)]; d['lay'] = [0, 0, 0]
+                if case.get('via') == 'csv':
+                    d['chunks'] = [sub]
+                yield d
+            parts *= 2
+        return
     if len(chunks) > 1:
         d = dict(case); d['chunks'] = [flat]; yield d
     for i in range(len(chunks)):
